@@ -196,8 +196,10 @@ def run_shard(build, sc, label, cases):
                 out.write(json.dumps(e, separators=(",", ":")) + "\n")
             todo = todo[k + 1:]
             part += 1
-            if part > 40:
-                raise Broken("driver keeps crashing (%s)" % label)
+            if part >= 4:
+                # the interpreter keeps dying (memory corrupted by earlier steps): four crashes are reported,
+                # the remaining histories of this shard are not run (and not counted as validated)
+                break
     return log, crashed
 
 
